@@ -539,6 +539,8 @@ def c19(tier):
     specs = [
         S('status', '9 proxy/URL configurations x proxy answer = "HTTP/1.1 " + 3 SYMBOLIC status bytes (any values) + terminated tail '
           '(with/without headers); one read', tails=['ok', 'ok-headers']),
+        S('status-wide', 'proxy answer whose status token is 4 SYMBOLIC bytes (any values >= 0x21: "+200", "0200", "2_00", non-ASCII digits, ...): '
+          'it is not status 200, the tunnel must not be used', tails=['ok', 'ok-headers'], status_len=4, configs=[0, 1]),
         S('status-line-separators', 'proxy answer "HTTP/1.1" <b1> "200" <b2> "Connection established": the two separator bytes are SYMBOLIC (any '
           'value but CR/LF): with SP SP the verdict follows the status; with any non-blank byte (letters, digits, 0x1C-0x1F, 0x80+...) there is no status 200 and '
           'nothing may be written; HT/VT/FF are a don\'t-care region', sym_seps=True, sym_status=False, configs=[0], tails=['ok']),
